@@ -14,7 +14,7 @@ from vf.taps.montap import montap
 
 LEVEL = "fault_enumeration"
 RULE = (
-    "fault enumeration: valid generated programs (a third of them with runs of statements moved into (nested) .include files) x 20 classes of definite error (invalid character, unterminated string, unknown keyword, "
+    "fault enumeration: valid generated programs (a third of them with runs of statements moved into (nested) .include files) x 30 classes of definite error (invalid character, unterminated string, unknown keyword, "
     "missing brace, missing operand, undefined symbol in a sized operand / in data, undefined macro, too few macro arguments, unsupported "
     "addressing mode, unsupported width, out-of-range branch, unmapped address, missing .include/.incbin/.table/.include_ips file) inserted "
     "at every statement position that is always expanded (thorough) or 6 positions (quick) x 5 entry points (string API, Program.assemble, "
@@ -46,6 +46,16 @@ FAULTS = {
     "branch_plus_128": ("semantic", "bne near_zz9\n.ascii '" + "x" * 128 + "'\nnear_zz9:"),
     "branch_minus_129": ("semantic", "back_zz9:\n.ascii '" + "x" * 127 + "'\nbeq back_zz9"),
     "unmapped_address": ("semantic", "*=UNMAPPED\n.db 1"),
+    "assign_over_undefined": ("semantic", "zq9 := undefined_zz9 + 1"),
+    "loop_bound_undefined": ("semantic", ".for kq9 := 0, undefined_zz9 {\n.db kq9\n}"),
+    "splice_of_undefined_block": ("semantic", "{{undefined_zz9}}"),
+    "undefined_macro_in_taken_if": ("semantic", ".if 1 {\nnomacro_zz9(0x12)\n}"),
+    "assign_over_undefined_in_taken_if": ("semantic", ".if 1 {\nzq9 := undefined_zz9 + 1\n} else {\n.db 1\n}"),
+    "loop_bound_undefined_in_taken_if": ("semantic", ".if 2 {\n.if 1 {\n.for kq9 := 0, undefined_zz9 {\n}\n}\n}"),
+    "splice_of_undefined_in_taken_if": ("semantic", ".if 1 {\n{{undefined_zz9}}\n}"),
+    "macro_defined_only_by_an_earlier_assembly": ("semantic", "ghost_zz9(1)"),
+    "branch_from_ram": ("semantic", "tgt_zz9:\n@=0x7e2000\nbra tgt_zz9"),
+    "include_ips_without_header": ("semantic", ".include_ips 'bad_zz9.ips', 0"),
     "missing_include": ("syntax", ".include 'nofile_zz9.s'"),
     "missing_incbin": ("semantic", ".incbin 'nofile_zz9.bin'"),
     "missing_table": ("semantic", ".table 'nofile_zz9.tbl'"),
@@ -153,6 +163,8 @@ def check_fault(res: Res, p: dict, name: str, where: tuple[list, int], entries: 
     lst.insert(i, {"k": "raw", "text": fault_text(name, rom)})
     try:
         src, files = materialise(p)
+        files = dict(files)
+        files["bad_zz9.ips"] = b"PATCX\x00\x00\x10\x00\x01\xaaEOF"
     finally:
         del lst[i]
     for entry in entries:
@@ -176,11 +188,13 @@ def run_shard(shard: dict) -> Res:
     rng = random.Random(shard["seed"])
     t = montap()
     t.start_raises()
+    # an earlier, valid assembly in this process defines a macro that later sources must not inherit
+    assemble("*=0x008000\n.macro ghost_zz9(pa) {\n.db pa\n}\nghost_zz9(7)\n")
     # each class must be an error on its own
     usable = []
     for name in FAULTS:
         for rom in ("low",):
-            r = assemble("*=0x008000\n" + fault_text(name, rom) + "\n", rom=rom)
+            r = assemble("*=0x008000\n" + fault_text(name, rom) + "\n", rom=rom, files={"bad_zz9.ips": b"PATCX\x00\x00\x10\x00\x01\xaaEOF"})
             if r.ok:
                 res.violate("error-not-detected", f"the in-memory API accepts a program consisting of the definite error `{name}`", {"src": "*=0x008000\n" + fault_text(name, rom) + "\n", "entry": "string", "rom": rom, "fault": name, "files": {}})
             else:
